@@ -3,6 +3,7 @@ From Coq Require Import Lia.
 From Zeno Require Import Base Alias AliasP.
 From Zeno Require Pin PinP PinSrc Facts TiePin.
 From Zeno Require Tree TreeP.
+From Zeno Require TieTree.
 
 (* whatever the live store does after a scan took its (deep-copied) memstore snapshot — inserts into
    existing periods (in-place writes), into new keys, flushes — every buffer the snapshot points to
@@ -53,8 +54,12 @@ Theorem C18_tree_copy_walk : forall (D:Type) ctx keep (t:Tree.tree D), TreeP.wf_
   forall k d, In (k, d) (snd (Tree.twalk ctx (fun _ _ => (true, keep)) (Tree.tcopy t))) <-> Tree.tfind k t = Some d.
 Proof. exact TreeP.copy_walk. Qed.
 
+Theorem C18_tree_source_as_modelled : TieTree.tree_source_as_modelled.
+Proof. exact TieTree.tree_source_as_modelled_holds. Qed.
+
 Print Assumptions C18_snapshot_stable.
 Print Assumptions C18_scan_reflects_the_prefix_at_its_start.
 Print Assumptions C18_memstore_copied_with_file_store.
 Print Assumptions C18_tree_copy.
 Print Assumptions C18_tree_copy_walk.
+Print Assumptions C18_tree_source_as_modelled.
